@@ -96,6 +96,8 @@ type Path struct {
 	merges     int
 	decLabels  map[string]int
 	race       *raceState
+	protoCalls int
+	protoProfile struct{ bytesLen, repLen, strLen int }
 }
 
 type ufApp struct {
